@@ -1250,7 +1250,7 @@ func init() {
 	register(&Rule{ID: "C16.SPLITCR", Min: 1, Doc: "a carriage return at the end of a buffer is not taken for a line break before the next byte is known", Run: runC16SplitCR})
 	register(&Rule{ID: "C18.ALLROOTS", Min: 1, Doc: "the cycle search gives up only after every job was a root of the search", Run: runC18AllRoots})
 	register(&Rule{ID: "C19.DUPALWAYS", Min: 1, Doc: "duplicates in literal rows are looked for whatever the include section contains", Run: runC19DupAlways})
-	register(&Rule{ID: "C20.RESET", Min: 2, Doc: "the per-job shell of the tool rules is reset to unspecified, so that the workflow default applies to the next job", Run: runC20Reset})
+	register(&Rule{ID: "C20.RESET", Min: 3, Doc: "the per-job shell of the tool rules is reset to unspecified, so that the workflow default applies to the next job", Run: runC20Reset})
 }
 
 func runC03MustScan(c *Ctx) {
@@ -1714,43 +1714,158 @@ func runC19DupAlways(c *Ctx) {
 func runC20Reset(c *Ctx) {
 	p := c.P
 	for _, typ := range []string{"RuleShellcheck", "RulePyflakes"} {
-		fn := p.Method(typ, "VisitJobPost")
-		if fn == nil {
+		post := p.Method(typ, "VisitJobPost")
+		if post == nil {
 			c.anchorMissing("(*" + typ + ").VisitJobPost")
 			continue
 		}
-		n := 0
-		eachInstr(fn, func(_ *ssa.BasicBlock, _ int, in ssa.Instruction) {
-			st, ok := in.(*ssa.Store)
-			if !ok {
-				return
+		pre, step := p.Method(typ, "VisitJobPre"), p.Method(typ, "VisitStep")
+		// the per-job shell state: the fields of the rule that are stored to while a job is entered or its steps are
+		// visited, and that are read on the way from VisitStep to the tool
+		type fieldUse struct {
+			idx    int
+			stores []*ssa.Store
+		}
+		uses := func(roots ...*ssa.Function) (written map[string]*fieldUse, read map[string]bool) {
+			written, read = map[string]*fieldUse{}, map[string]bool{}
+			for _, f := range sameReceiverChain(p, roots...) {
+				recv := f.Params[0]
+				eachInstr(f, func(_ *ssa.BasicBlock, _ int, in ssa.Instruction) {
+					switch x := in.(type) {
+					case *ssa.Store:
+						if fa, ok := x.Addr.(*ssa.FieldAddr); ok && fa.X == recv {
+							n := fieldAddrName(fa)
+							if written[n] == nil {
+								written[n] = &fieldUse{idx: fa.Field}
+							}
+							written[n].stores = append(written[n].stores, x)
+						}
+					case *ssa.UnOp:
+						if fa, ok := x.X.(*ssa.FieldAddr); ok && x.Op == token.MUL && fa.X == recv {
+							read[fieldAddrName(fa)] = true
+						}
+					}
+				})
 			}
-			fa, ok := st.Addr.(*ssa.FieldAddr)
-			if !ok {
-				return
+			return
+		}
+		var roots []*ssa.Function
+		for _, f := range []*ssa.Function{pre, step} {
+			if f != nil {
+				roots = append(roots, f)
 			}
-			n++
-			construct := "(*" + typ + ").VisitJobPost|reset of " + fieldAddrName(fa)
-			zero := false
-			if k, ok := st.Val.(*ssa.Const); ok {
-				if k.Value == nil {
-					zero = true
-				} else if n, ok := constInt(k); ok && n == 0 {
-					zero = true
-				} else if s, ok := constString(k); ok && s == "" {
-					zero = true
+		}
+		set, _ := uses(roots...)
+		var read map[string]bool
+		if step != nil {
+			_, read = uses(step)
+		}
+		inPost, _ := uses(post)
+		fields := map[string]int{}
+		for n, u := range set {
+			if read[n] {
+				fields[n] = u.idx
+			}
+		}
+		for n, u := range inPost {
+			fields[n] = u.idx // whatever VisitJobPost stores to is judged too
+		}
+		if len(fields) == 0 {
+			c.anchorMissing("per-job shell fields of " + typ)
+			continue
+		}
+		for _, n := range sortedKeys(fields) {
+			idx := fields[n]
+			construct := "(*" + typ + ").VisitJobPost|reset of " + n
+			// the values VisitJobPost gives the field
+			nonZero := false
+			if u := inPost[n]; u != nil {
+				for _, st := range u.stores {
+					if !isZeroValue(st.Val) {
+						nonZero = true
+						c.bad(construct, st.Pos(), "the per-job shell is reset to "+symName(st.Val)+" instead of the unspecified value: the workflow default no longer applies to the jobs that follow, so their scripts are not passed to the tool")
+						break
+					}
 				}
 			}
-			if zero {
-				c.ok(construct, st.Pos(), "reset to the zero value (unspecified)")
-			} else {
-				c.bad(construct, st.Pos(), "the per-job shell is reset to "+symName(st.Val)+" instead of the unspecified value: the workflow default no longer applies to the jobs that follow, so their scripts are not passed to the tool")
+			if nonZero {
+				continue
 			}
-		})
-		if n == 0 {
-			c.anchorMissing("reset in (*" + typ + ").VisitJobPost")
+			pos := post.Pos()
+			if u := inPost[n]; u != nil {
+				pos = u.stores[0].Pos()
+			}
+			switch {
+			case storesFieldOnEveryPath(post, idx, 0):
+				c.ok(construct, pos, "reset to the zero value (unspecified) on every path of VisitJobPost")
+			case pre != nil && set[n] != nil && assignsFieldFirst(pre, idx):
+				c.ok(construct, pos, "assigned by VisitJobPre on every path before any read")
+			case inPost[n] == nil:
+				c.bad(construct, pos, "set while a job is visited and read when the tool is run, but not reset by VisitJobPost: the shell of one job is applied to the scripts of the jobs that follow")
+			default:
+				c.bad(construct, pos, "VisitJobPost can return without resetting the field: the shell of one job is applied to the scripts of the jobs that follow")
+			}
 		}
 	}
+}
+
+// sameReceiverChain: the functions and the functions they call, transitively, on their own receiver.
+func sameReceiverChain(p *Prog, roots ...*ssa.Function) []*ssa.Function {
+	seen := map[*ssa.Function]bool{}
+	var out []*ssa.Function
+	var add func(f *ssa.Function)
+	add = func(f *ssa.Function) {
+		if f == nil || seen[f] || f.Blocks == nil || len(f.Params) == 0 {
+			return
+		}
+		seen[f] = true
+		out = append(out, f)
+		eachInstr(f, func(_ *ssa.BasicBlock, _ int, in ssa.Instruction) {
+			if call, ok := in.(ssa.CallInstruction); ok {
+				g := staticCallee(call.Common())
+				if g != nil && g.Signature.Recv() != nil && len(call.Common().Args) > 0 && call.Common().Args[0] == ssa.Value(f.Params[0]) && inPkg(g, p.SPkg) {
+					add(g)
+				}
+			}
+		})
+	}
+	for _, f := range roots {
+		add(f)
+	}
+	return out
+}
+
+// storesFieldOnEveryPath: no path from the entry of f to a return avoids every store to field idx of the receiver
+// (a call on the receiver of a function that itself stores on every path counts as a store).
+func storesFieldOnEveryPath(f *ssa.Function, idx int, depth int) bool {
+	if depth > 3 || f.Blocks == nil || len(f.Params) == 0 {
+		return false
+	}
+	recv := ssa.Value(f.Params[0])
+	stores := map[*ssa.BasicBlock]bool{}
+	eachInstr(f, func(b *ssa.BasicBlock, _ int, in ssa.Instruction) {
+		switch x := in.(type) {
+		case *ssa.Store:
+			if fa, ok := x.Addr.(*ssa.FieldAddr); ok && fa.X == recv && fa.Field == idx {
+				stores[b] = true
+			}
+		case *ssa.Call:
+			g := staticCallee(&x.Call)
+			if g != nil && inModule(g) && g.Signature.Recv() != nil && len(x.Call.Args) > 0 && x.Call.Args[0] == recv && storesFieldOnEveryPath(g, idx, depth+1) {
+				stores[b] = true
+			}
+		}
+	})
+	if stores[f.Blocks[0]] {
+		return true
+	}
+	for b := range reachableBlocks([]*ssa.BasicBlock{f.Blocks[0]}, stores) {
+		if _, isRet := b.Instrs[len(b.Instrs)-1].(*ssa.Return); isRet {
+			return false
+		}
+	}
+	_, isRet := f.Blocks[0].Instrs[len(f.Blocks[0].Instrs)-1].(*ssa.Return)
+	return !isRet
 }
 
 // ---- rules after the third hunt round ----
